@@ -120,16 +120,27 @@ impl Frame {
         Ok(frame)
     }
 
+    #[cfg(test)]
     pub fn make_header(&self) -> BytesMut {
+        self.try_make_header()
+            .expect("frame does not fit the header format")
+    }
+
+    // None if the frame can not be represented: the body length is a u16 and
+    // a host name attribute holds at most 253 bytes
+    pub fn try_make_header(&self) -> Option<BytesMut> {
+        if self.body.len() > u16::MAX as usize {
+            return None;
+        }
         let mut buf = BytesMut::with_capacity(1024);
         let mut addr = buf.split_off(12);
-        encode_address(&mut addr, self.addr.as_ref());
+        encode_address(&mut addr, self.addr.as_ref())?;
         buf.put_u32(MAGIC);
         buf.put_u32(self.session_id);
         buf.put_u16(addr.len() as u16);
         buf.put_u16(self.body.len() as u16);
         buf.unsplit(addr);
-        buf
+        Some(buf)
     }
 
     pub fn parse_attr(&mut self, buf: Bytes) -> IoResult<()> {
@@ -139,7 +150,9 @@ impl Frame {
 
     // Write head and body to output stream
     pub async fn write_to<T: AsyncWrite + Unpin>(&self, output: &mut T) -> IoResult<usize> {
-        let head = self.make_header();
+        let head = self
+            .try_make_header()
+            .ok_or_else(|| IoError::new(ErrorKind::InvalidInput, "frame too large"))?;
         output.write_all(&head).await?;
         output.write_all(&self.body).await?;
         output.flush().await?;
@@ -150,8 +163,13 @@ impl Frame {
 impl Fragmentable for Frame {
     type Buffer = Chain<BytesMut, Bytes>;
     fn as_buffer(&self) -> Self::Buffer {
-        let head = self.make_header();
-        head.chain(self.body.clone())
+        self.try_as_buffer()
+            .expect("frame does not fit the header format")
+    }
+
+    fn try_as_buffer(&self) -> Option<Self::Buffer> {
+        let head = self.try_make_header()?;
+        Some(head.chain(self.body.clone()))
     }
 
     fn from_buffer(buf: Bytes) -> Option<Self> {
@@ -302,14 +320,18 @@ fn decode_address(mut buf: Bytes) -> IoResult<Option<TargetAddress>> {
         _ => Err(IoError::new(ErrorKind::InvalidInput, "bad header")),
     }
 }
-fn encode_address(buf: &mut BytesMut, addr: Option<&TargetAddress>) {
+// None if the address can not be encoded (host name too long for the one byte length)
+fn encode_address(buf: &mut BytesMut, addr: Option<&TargetAddress>) -> Option<()> {
     if addr.is_none() {
-        return;
+        return Some(());
     }
     let addr = addr.unwrap();
     match addr {
         TargetAddress::DomainPort(host, port) => {
             let str = host.as_bytes();
+            if str.len() > u8::MAX as usize - 2 {
+                return None;
+            }
             let len = str.len() + 2;
             buf.put_u8(ATYP_HOST);
             buf.put_u8(len as u8);
@@ -332,6 +354,7 @@ fn encode_address(buf: &mut BytesMut, addr: Option<&TargetAddress>) {
         },
         _ => (),
     }
+    Some(())
 }
 
 #[cfg(test)]
